@@ -2,6 +2,7 @@ import NodisVerif.Model.Proto
 import NodisVerif.Proofs.ProtoReg
 import NodisVerif.Proofs.LinProtoCheck
 import NodisVerif.Proofs.LinExamples
+import NodisVerif.Proofs.TxProgReach
 /-
   C05 — concurrent single-key commands are linearizable: no lost or torn updates.
 
@@ -450,5 +451,182 @@ example : ∃ m, ∀ p, 1 < p → p ≤ 3 → InInterval setupK "k" 2 m p := by
     · intro p h1 h2
       have : p = 2 := by omega
       subst this; decide
+
+/-! ## 9. the program level: the CODE of tx.go refines the protocol  (work package T)
+
+  `Model/TxProg.lean` is a small-step interleaving semantics of `Tx.acquire`, `lockKeys` (the sorted locking
+  phase), `newKey`, `delKey` and `commit`: one transition = one mutex operation or one access to shared state,
+  `store.mu` and every record's RWMutex are explicit, and every verifTrace call site emits its protocol event.
+  Everything above is about the PROTOCOL `Model/Proto.lean`; the theorems below say that every run of the
+  PROGRAM is a run of the protocol, so that all of the above transfers to the program model, and they prove
+  directly on program states what §3 of DESIGN.md had to assume about the hook ("reported inside the critical
+  section") and about commands ("data is touched between acquire's return and the commit").
+  Helper files: Proofs/TxProgBase (abstraction `absTx`, relation `Sim`), TxProgSim/SimA/SimB/SimC (one lemma per
+  program counter), TxProgRefine, TxProgStrong/Local/Guard/Shared/Inv (the inductive invariant `Strong`),
+  TxProgCS, TxProgReach.
+  Also in the program model: the one-record mini transactions of store.go / key.go (`gcRecord`, `flushRecord`, the
+  visit of Keys / Scan; pcs g1 … g13).  Not in it: `store.clear` (protocol level only). -/
+
+section ProgramLevel
+open NodisVerif.Proofs.TxProg
+
+/-- MAIN THEOREM. For EVERY schedule (any number of threads, any interleaving, any choice of commands, fresh
+    records and TryLock outcomes) the sequence of events the program emits is accepted by `Proto.step` from the
+    initial state, and the final program state is related to the final protocol state by the simulation
+    relation (`Strong` contains `Sim`). -/
+theorem prog_refines_proto (sch : List (TxProg.Tid × TxProg.Choice)) :
+    ∃ p, runAll {} (TxProg.run {} sch).2 = some p ∧ Strong (TxProg.run {} sch).1 p :=
+  strong_refines Strong.init sch
+
+/-- the same with the model's own `run` (the function the driver uses on recorded traces) -/
+theorem prog_trace_accepted (sch : List (TxProg.Tid × TxProg.Choice)) :
+    ∃ p, run {} (TxProg.run {} sch).2 0 = .ok p := by
+  obtain ⟨p, h, _⟩ := prog_refines_proto sch
+  exact ⟨p, (run_ok_iff _ _ _ _).2 h⟩
+
+/-- one step: the simulation diagram (a silent transition is matched by no protocol step) -/
+theorem prog_step_simulated {c c' : TxProg.Cfg} {p : PState} {t : TxProg.Tid} {ch : TxProg.Choice} {e : Option Ev}
+    (hst : Strong c p) (h : TxProg.step c t ch = some (c', e)) : ∃ p', optStep p e = some p' ∧ Strong c' p' :=
+  strong_step hst h
+
+/-- every reachable program state has a reachable protocol state as its abstraction -/
+theorem prog_state_abstracts {c : TxProg.Cfg} (h : ProgReachable c) : ∃ p, Reachable p ∧ Strong c p := h.strong
+
+/-- the abstraction, spelled out: index, pending and record names are the program's; the protocol state of
+    transaction `t` is `absTx` of thread `t`'s program counter and locals -/
+theorem prog_abstraction {c : TxProg.Cfg} {p : PState} (hst : Strong c p) :
+    p.index = c.sh.index ∧ p.pending = c.sh.pending ∧ p.names = c.sh.names ∧ ∀ t, p.tx t = absTx (c.loc t) :=
+  ⟨hst.sim.idx, hst.sim.pend, hst.sim.names, hst.sim.tx⟩
+
+/-- TRANSFER of (1) `mutual_exclusion`: a write hold of thread `t` in a reachable PROGRAM state excludes every
+    other hold on that record, of any thread -/
+theorem prog_mutual_exclusion {c : TxProg.Cfg} (hr : ProgReachable c) {t u : TxProg.Tid} {g g' : Hold}
+    (hg : g ∈ holdsOf (c.loc t)) (hw : g.mode = .w) (hg' : g' ∈ holdsOf (c.loc u)) (e : g'.rid = g.rid) :
+    u = t ∧ g' = g := by
+  obtain ⟨p, hp, hst⟩ := hr.strong
+  have ht : (c.loc t).pc ≠ .init := by intro h; simp [holdsOf, h] at hg
+  have hu : (c.loc u).pc ≠ .init := by intro h; simp [holdsOf, h] at hg'
+  exact mutual_exclusion hp (hst.sim.tx_some t ht) hg hw (hst.sim.tx_some u hu) hg' e
+
+/-- the same fact read off the mutexes of the program state, without the detour through the protocol: the two
+    threads would both own the record's RWMutex, one of them as its writer -/
+theorem prog_mutual_exclusion_mutex {c : TxProg.Cfg} (hr : ProgReachable c) {t u : TxProg.Tid} {g g' : Hold}
+    (hne : u ≠ t) (hg : g ∈ holdsOf (c.loc t)) (hw : g.mode = .w) (hg' : g' ∈ holdsOf (c.loc u)) :
+    g'.rid ≠ g.rid := by
+  obtain ⟨p, _, hst⟩ := hr.strong
+  exact prog_mutex hst.sim hne hg hw hg'
+
+/-- every hold of the abstraction is backed by the record's mutex: the thread is its writer / one of its readers -/
+theorem prog_hold_owns_mutex {c : TxProg.Cfg} (hr : ProgReachable c) {t : TxProg.Tid} {g : Hold}
+    (hg : g ∈ holdsOf (c.loc t)) : owns (c.sh.mu g.rid) t g.mode := by
+  obtain ⟨p, _, hst⟩ := hr.strong
+  exact (hst.sim.thr t).own g hg
+
+/-- TRANSFER of (2) `valid_means_current`: when the program reports a successful re-validation, the record is
+    the one registered under the key in the program's own index / pending maps -/
+theorem prog_valid_means_current {c c' : TxProg.Cfg} (hr : ProgReachable c) {t : TxProg.Tid} {ch : TxProg.Choice}
+    {k : Key} {r : Rec} (h : TxProg.step c t ch = some (c', some (.valid t k r true))) :
+    c'.sh.lookup k = some r := by
+  obtain ⟨p, _, hst⟩ := hr.strong
+  obtain ⟨p', h1, hst'⟩ := strong_step hst h
+  rw [← hst'.sim.lookup]
+  exact valid_means_current h1
+
+/-- TRANSFER of (3): before its commit, the record registered under the name of any record in `tx.lockedMetas`
+    is itself in `tx.lockedMetas` — a command that re-names a key it has locked finds the record it holds -/
+theorem prog_held_name_registered {c : TxProg.Cfg} (hr : ProgReachable c) {t : TxProg.Tid}
+    (hg : grow (c.loc t).pc = true) (hd : (c.loc t).pc ≠ .d3) {g : Hold} (hm : g ∈ (c.loc t).held) :
+    ∃ g' ∈ (c.loc t).held, c.sh.lookup g.key = some g'.rid := by
+  obtain ⟨p, _, hst⟩ := hr.strong
+  exact (hst.sf t).reg hg g hm (fun x => absurd x hd)
+
+/-- EVENTS INSIDE THE CRITICAL SECTION (the assumption "read off the 48 hook lines", DESIGN.md §3, now a theorem
+    about the program model): whenever a transition emits an event, the emitting thread holds, in the state in
+    which it emits, the lock that makes the reported step atomic — `store.mu` shared for look / valid,
+    `store.mu` exclusive for claim / publish / unlink / drop, the record's own mutex for lock / unlock / trylock -/
+theorem events_inside_critical_section {c c' : TxProg.Cfg} (hr : ProgReachable c) {t : TxProg.Tid}
+    {ch : TxProg.Choice} {ev : Ev} (h : TxProg.step c t ch = some (c', some ev)) : InCS c.sh t ev := by
+  obtain ⟨p, _, hst⟩ := hr.strong
+  exact events_in_cs hst h
+
+/-- an event is emitted by the thread it names -/
+theorem event_names_its_thread {c c' : TxProg.Cfg} {t : TxProg.Tid} {ch : TxProg.Choice} {ev : Ev}
+    (h : TxProg.step c t ch = some (c', some ev)) : evTx ev = some t := by
+  unfold TxProg.step at h
+  split at h
+  · cases h
+  · rename_i hts; cases h; exact tstep_evTx hts
+
+/-- `store.mu` is exclusive in the program model: a thread inside an `s.mu.Lock()` section is alone in such a
+    section and nobody is inside an `s.mu.RLock()` section -/
+theorem store_mutex_exclusive {c : TxProg.Cfg} (hr : ProgReachable c) {t u : TxProg.Tid}
+    (ht : inW (c.loc t).pc = true) : (inW (c.loc u).pc = true → u = t) ∧ inR (c.loc u).pc = false := by
+  obtain ⟨p, _, hst⟩ := hr.strong
+  exact smu_exclusive hst ht
+
+/-- PLACED (the assumption of `single_key_commands_linearizable`, here a theorem): the command body (pc `idle`)
+    and the write of `newKey` into the record (pc `n1`) run between acquire's return and the commit — the
+    transaction is active, neither blocked nor committing, every record of `tx.lockedMetas` has been validated,
+    its mutex is owned in the recorded mode, and it is (or its successor placeholder is) the registered one -/
+theorem command_body_is_placed {c : TxProg.Cfg} (hr : ProgReachable c) {t : TxProg.Tid}
+    (hpc : (c.loc t).pc = .idle ∨ (c.loc t).pc = .n1) :
+    ∃ p, Reachable p ∧ p.tx t = some { holds := (c.loc t).held, waiting := none, committing := false } ∧
+    ∀ g ∈ (c.loc t).held, g.valid = true ∧ owns (c.sh.mu g.rid) t g.mode ∧
+      ∃ g' ∈ (c.loc t).held, c.sh.lookup g.key = some g'.rid := by
+  obtain ⟨p, hp, hst⟩ := hr.strong
+  exact ⟨p, hp, body_is_placed hst hpc⟩
+
+/-- the one place where tx.go itself writes record data: `newKey` fills the record in (pc n1) while the thread is
+    the writer of the record's mutex, and no other thread has any hold on the record -/
+theorem newKey_fills_in_under_write_lock {c : TxProg.Cfg} (hr : ProgReachable c) {t : TxProg.Tid}
+    (hpc : (c.loc t).pc = .n1) :
+    owns (c.sh.mu (c.loc t).m) t .w ∧ ∀ u, u ≠ t → ∀ g' ∈ holdsOf (c.loc u), g'.rid ≠ (c.loc t).m := by
+  obtain ⟨p, _, hst⟩ := hr.strong
+  exact newKey_writes_locked hst hpc
+
+/-- the eviction pass (`gcRecord`, pcs g1 … g13 of the program model; `flushRecord` and the visit of Keys / Scan are
+    the same code without the unlink): when it unlinks a dead key (pc g8) the record it validated is still the one
+    in the index, the thread is the writer of the record's mutex and inside `store.mu` — so the `unlink` it
+    reports is the unlink of exactly that record, and no command holds the record -/
+theorem gc_unlinks_the_indexed_record {c : TxProg.Cfg} (hr : ProgReachable c) {t : TxProg.Tid}
+    (hpc : (c.loc t).pc = .g8) :
+    assoc c.sh.index (c.loc t).key = some (c.loc t).m ∧ owns (c.sh.mu (c.loc t).m) t .w ∧
+    c.sh.smu.writer = some t ∧ ∀ u, u ≠ t → ∀ g' ∈ holdsOf (c.loc u), g'.rid ≠ (c.loc t).m := by
+  obtain ⟨p, _, hst⟩ := hr.strong
+  have hf := (hst.sim.thr t).facts
+  simp only [Facts, hpc] at hf
+  have hh : (⟨(c.loc t).m, (c.loc t).key, .w, (c.loc t).okcur⟩ : Hold) ∈ holdsOf (c.loc t) := by simp [holdsOf, hpc]
+  exact ⟨(hst.sf t).gidx (Or.inr (Or.inr hpc)) hf.2, (hst.sim.thr t).own _ hh, (hst.sf t).w (by simp [hpc, inW]),
+    fun u hu g' hg' => prog_mutex hst.sim hu hh rfl hg'⟩
+
+/-- hypotheses are satisfiable, and a stale record is left alone: the eviction pass unlinks the dead key "k"; a second
+    mini transaction on the same record, taken from an older snapshot, fails its validation and commits nothing -/
+example : (TxProg.run {} schedGc).2 =
+    [.begin 1, .look 1 "k" none, .claim 1 "k" 10 .w, .look 1 "k" (some 10), .publish 1 "k" 10, .commit 1,
+     .unlock 1 10, .fin 1,
+     .begin 3, .wait 3 "k" 10 .w, .lock 3 "k" 10 .w, .valid 3 "k" 10 true, .unlink 3 "k" 10, .commit 3,
+     .unlock 3 10, .fin 3,
+     .begin 4, .wait 4 "k" 10 .w, .lock 4 "k" 10 .w, .valid 4 "k" 10 false, .unlock 4 10, .fin 4] := by decide
+
+example : ((TxProg.run {} (schedGc.take 28)).1.loc 3).pc = .g8 := by decide
+
+/-- hypotheses are satisfiable: a schedule in which thread 1 creates "k" through a placeholder while thread 2's
+    read waits for the placeholder, is granted the lock after thread 1's commit and validates; the emitted trace -/
+example : (TxProg.run {} schedCreate).2 =
+    [.begin 1, .look 1 "k" none, .claim 1 "k" 10 .w, .begin 2, .look 2 "k" (some 10), .wait 2 "k" 10 .r,
+     .look 1 "k" (some 10), .publish 1 "k" 10, .commit 1, .unlock 1 10, .fin 1,
+     .lock 2 "k" 10 .r, .valid 2 "k" 10 true, .commit 2, .unlock 2 10, .fin 2] := by decide
+
+/-- in the middle of that schedule: thread 1 is in `newKey` at pc n1, holding placeholder 10 as its writer, while
+    thread 2 is blocked at pc a8 in `m.RLock()` — a reachable state for `newKey_fills_in_under_write_lock`,
+    `command_body_is_placed` and `blocked_waits_for_greater_key` -/
+example : ((TxProg.run {} (schedCreate.take 16)).1.loc 1).pc = .n1 ∧
+    ((TxProg.run {} (schedCreate.take 16)).1.loc 2).pc = .a8 ∧
+    ((TxProg.run {} (schedCreate.take 16)).1.sh.mu 10).writer = some 1 ∧
+    TxProg.step (TxProg.run {} (schedCreate.take 16)).1 2 {} = none := by decide
+
+example : ProgReachable (TxProg.run {} (schedCreate.take 16)).1 := ⟨_, rfl⟩
+
+end ProgramLevel
 
 end NodisVerif.C05
